@@ -53,9 +53,10 @@ class ScopeContext:
 
     def __enter__(self) -> None:
         assert self._disposables is None, "Can't enter synchronous context with disposables"  # nosec: B101
+        # metrics context refuses reentrance, check it before anything else is entered
+        self._metrics_context.__enter__()
         self._state_context = StateContext.updated(self._state)
         self._state_context.__enter__()
-        self._metrics_context.__enter__()
 
     def __exit__(
         self,
